@@ -4,7 +4,10 @@
 
 package syntax
 
-import "fmt"
+import (
+	"fmt"
+	"sort"
+)
 
 // Kinds of value or reference expressions.  These include all of
 // the builtin types as well as "array" and "null", and for references
@@ -192,10 +195,22 @@ func (s *ArrayExp) getSubnodes() []AstNodable {
 
 func (s *MapExp) getSubnodes() []AstNodable {
 	subs := make([]AstNodable, 0, len(s.Value))
-	for _, n := range s.Value {
-		subs = append(subs, n)
+	for _, k := range s.sortedKeys() {
+		subs = append(subs, s.Value[k])
 	}
 	return subs
+}
+
+// sortedKeys returns the keys in the order in which they are formatted, so
+// that nothing which is derived from walking the map depends on the iteration
+// order of the map.
+func (s *MapExp) sortedKeys() []string {
+	keys := make([]string, 0, len(s.Value))
+	for k := range s.Value {
+		keys = append(keys, k)
+	}
+	sort.Strings(keys)
+	return keys
 }
 
 func (e *ArrayExp) HasRef() bool {
@@ -263,8 +278,8 @@ func (e *ArrayExp) FindRefs() []*RefExp {
 
 func (e *MapExp) FindRefs() []*RefExp {
 	var result []*RefExp
-	for _, v := range e.Value {
-		r := v.FindRefs()
+	for _, k := range e.sortedKeys() {
+		r := e.Value[k].FindRefs()
 		if len(r) > 0 {
 			if len(result) == 0 {
 				result = r
